@@ -20,6 +20,16 @@ def _make_fn(P, scalar):
     """closure over torch for a parameter spec; argument is NAMED after the variable."""
     var = P["var"]
     v0 = torch.tensor(P["v0"], dtype=torch.float32).reshape(1, -1)
+    if P["k"] == "affine2":
+        V1 = torch.tensor(P["V1"], dtype=torch.float32)
+        V2 = torch.tensor(P["V2"], dtype=torch.float32)
+        var2 = P["var2"]
+
+        def impl2(x, x2):
+            return v0.to(x.device) + x @ V1.T.to(x.device) + x2 @ V2.T.to(x.device)
+        ns = {"impl": impl2}
+        exec(f"def fn({var}, {var2}):\n    return impl({var}, {var2})\n", ns)
+        return ns["fn"]
     if P["k"] == "affine":
         V1 = torch.tensor(P["V1"], dtype=torch.float32)
 
